@@ -9,7 +9,10 @@ def run(R, ctx):
                                "Pipelines up to 5 commands per write with CR/LF/NUL inside keys, values, channel names and command names; "
                                "unknown commands; `*0`; values that are not commands (no reply expected). "
                                "Parallel sessions: 4-10 connections, each owning its keys, receive pipelines of large array replies at the same "
-                               "moment (PAR steps); every client must get exactly its own replies.", parallel=6)
+                               "moment (PAR steps); every client must get exactly its own replies. "
+                               "Slow-reader sessions: a client pipelines 1 MiB replies, reads the first chunk, does not read for 6.5 s (thorough: also 12 s, 35 s), then "
+                               "reads on: every reply whole and in order.", parallel=6,
+                               stalls=((6500,) if R.tier == "quick" else (6500, 12000, 35000)))
 
 
 def replay(R, payload):
